@@ -92,8 +92,12 @@ class ProcessWorker(Worker):
         else:
             try:
                 self._ctrl_comms.parent_end.put('terminate')
-                self._ctrl_comms.parent_end.get()
-            except (BrokenPipeError, queue.Empty):
+                # wait until the control thread of the child has picked the request up, but no longer than the timeout:
+                # the child might be unable to run any Python code (stopped, or stuck in C code holding the interpreter lock)
+                if self._ctrl_comms.parent_end.poll(timeout):
+                    self._ctrl_comms.parent_end.get()
+            except (OSError, queue.Empty):
+                # includes BrokenPipeError and ConnectionResetError: the child is already closing down
                 pass
 
             self._release_child()
@@ -102,6 +106,10 @@ class ProcessWorker(Worker):
                 if force:
                     self._child.terminate()
                     self._child.join(timeout)
+                    if self._child.is_alive():
+                        # SIGTERM does not get through (e.g., the child is stopped), use the last resort
+                        self._child.kill()
+                        self._child.join(timeout)
                     # try:
                     #     self._comms.child_end.put((False, None))
                     #     self._comms.child_end.close()
